@@ -191,7 +191,11 @@ contract(P + 'log_unsatisfied_prereqs',
                  'forall(lambda j: implies(0 <= j and j < _i and within(self, int(unsat_key(itask.state, j)[0])), '
                  'exists(lambda k: k in unsat, k="str")))',
              ], modifies=['all:fresh[*]'])},
-         modifies=_POOLFRAME, options={'feas_timeout_ms': 500}, props=['C03'], tier='thorough')
+         # ASSUMED, not verified: the exploration of the three nested loops (pool x prerequisites x keys) with
+         # these invariants did not finish within the thorough tier's hour; is_stalled relies on this contract
+         modifies=_POOLFRAME, options={'feas_timeout_ms': 500}, props=['C03'], assumed=True,
+         note='nested loops over pool x prerequisites x keys: verification does not finish in an hour; '
+              'the bounded enumeration contracts/c03_replay.py:bounded_unsat compares it with any_partial natively')
 
 
 # ------------------------------------------------------------------ the chain up to the shutdown decision
